@@ -6,6 +6,7 @@
 -/
 import Genql.Model.Join
 import Genql.Model.Builtins
+import Genql.Model.Selector
 namespace Genql
 variable {N : Type} [Num N]
 
@@ -232,6 +233,12 @@ def evalExpr (env : Env N) (ctx : Ctx N) (cur : Row N) : Expr N → R (IVal N)
   | .num n => .ok (.v (.num n))
   | .str s => .ok (.neutral s)
   | .col p => .ok (.col (if ctx.hard then [".".intercalate p] else p))
+  | .selc t =>
+    -- `ExecReader(current, text)`; the hard-coded reads of a join's ON (key maps) are not modelled for selectors
+    if ctx.hard then .error .oom
+    else do
+      let v ← Sel.execReader (.obj cur) t
+      pure (.v v)
   | .and a b => do
     let l ← evalExpr env ctx cur a
     let lb ← asBool (← valueOf cur l)
@@ -363,6 +370,7 @@ def evalArgs (env : Env N) (ctx : Ctx N) (cur : Row N) : List (Expr N) → R (Li
 /-- `AggrFuncArgReader`: a column argument is read from `current["*"]` when that is an array -/
 def evalAggrArgs (env : Env N) (ctx : Ctx N) (cur : Row N) : List (Expr N) → R (List (Val N))
   | [] => .ok []
+  | .selc _ :: _ => .error .oom      -- a selector text as aggregate argument (read from `*`): not modelled
   | e :: es => do
     let x ← evalExpr env ctx cur e
     let v ← (match x with
@@ -417,6 +425,16 @@ def evalFrom (env : Env N) (data : Row N) (sc : Scope) : From N → R (List (Val
         | d => do
           let rows ← asArray d
           pure (processAlias rows alias, false, ident)
+  | .tableSel text alias ident =>
+    -- a CTE name inside a selector text is resolved by the thunk machinery of the Go code: not modelled
+    if (sc.fwd ++ sc.bad).any (fun n => n.isPrefixOf text) then .error .oom
+    else do
+      let d ← Sel.execReader (.obj data) text
+      match d with
+      | .null => pure ([], false, ident)
+      | d => do
+        let rows ← asArray d
+        pure (processAlias rows alias, false, ident)
   | .derived q alias => do
     let p ← prepare env data sc q
     let v ← p.run p.frm
